@@ -41,6 +41,36 @@ CLAIMED = {
     text="All 65536 words x 4 origins: the disassembled text must reassemble to exactly the word; '.fill' exactly for words below x0200 and non-canonical words; aliases printed by name.",
     note="Uses the library's parser and assembler for the way back (that is the property); canonicity from the independent decoder.",
     ref="4/C07"),
+ "C17": dict(
+    technique="property-based round trip serialize->deserialize over generated and linked object files (binary format)",
+    text="Object files assembled with/without debug symbols from generated programs (externals anywhere, .blkw, several/empty blocks, arbitrary source text) and links of 2-3 files are written with BinaryFormat and read back; the result must equal the original under the type's own PartialEq (image, labels, flags, relocation entries, line map, source).",
+    note="Equality is the library's derived PartialEq on ObjectFile; a diff routine only explains mismatches.",
+    ref="4/C17"),
+ "C18": dict(
+    technique="property-based round trip serialize->deserialize over generated and linked object files (text format)",
+    text="Same object-file generator as C17, sources rich in quotes, backslashes, tabs, CRLF, control and non-ASCII characters, whitespace-only lines and missing final newline; TextFormat round trip must give an equal object file.",
+    note="Equality is the library's derived PartialEq on ObjectFile.",
+    ref="4/C18"),
+ "C19": dict(
+    technique="grammar-aware fuzzing (proptest-driven structured generators + mutations of valid serializations; libFuzzer in the thorough tier) with a no-panic oracle over deserialize/serialize/link/load",
+    text="Structured binary and text object files with arbitrary field values, lying lengths, wrapping/overlapping blocks, huge line numbers, dangling relocation entries, bad escapes, 0-3 dividers, plus mutated valid serializations and random inputs; any unwind in deserialize, re-serialization, re-deserialization, link with 6 pool files (both orders) or load_obj_file is a violation.",
+    note="Built with overflow checks on (as cargo test builds are), so arithmetic overflow counts as a panic; chunk order of valid serializations is canonicalized before mutation to keep runs reproducible.",
+    ref="4/C19"),
+ "C20": dict(
+    technique="model-based property testing: all link orders and bracketings of generated file sets against a set-union link model",
+    text="2-4 generated files with shared/conflicting/external labels and touching/overlapping blocks are linked in every order and bracketing (2/12/120 trees); success, image, labels, external flags and pending relocations (observed by linking a probe definer) must equal the model for every tree.",
+    note="Pending relocations are observed behaviourally (probe file), not by parsing a serialization.",
+    ref="4/C20"),
+ "C21": dict(
+    technique="property-based testing of load/link outcomes for files with external uses; known finding excluded by construction",
+    text="Files with .external before/between/after the .fill uses: loading must fail with UnresolvedExternal; after linking a definer in either order the word holds the label address and loading succeeds. The no-debug-symbols variant is a listed known finding (assemble() drops the symbol table) and is excluded while listed; its witness is replayed every run.",
+    note="Known finding C21/nodebug-external-dropped (API decision needed) - see known_findings.json.",
+    ref="4/C21"),
+ "C22": dict(
+    technique="property-based testing of linked debug info over all link trees of 2-3 files",
+    text="For every (line,address) of every input file the linked object's rev_lookup_line must read the same text; every label's source span must slice the combined source to a spelling of the label; all orders and bracketings.",
+    note="Texts compared through the library's own read_line on both sides (C25 checks read_line itself).",
+    ref="4/C22"),
  "C23": dict(
     technique="property-based testing of symbol-table queries against the model label table",
     text="Generated programs with mixed-case labels, repeated labels, labels on .end and externals; every label is queried in 5 spellings through lookup_label, get_label_source and rev_lookup_label, the listing is compared as a set, absent names/addresses must give None.",
